@@ -368,20 +368,28 @@ def subtype_shape(fr, r):
         return "star" if a.bound is None else ("out" if a.is_covariant() else "in" if a.is_contravariant() else "inv")
     if same and via == "related":
         # which positions were changed, and how (query argument -> returned argument)
-        moves = sorted({"%s-to-%s" % (argkind(a), argkind(b)) for a, b in zip(e.type_args, r.type_args)
-                        if not (a == b)})
+        # (only positions whose new argument is not contained in the query's, by the reference decider;
+        #  direction: subtype search r <= e, supertype search e <= r)
+        def offending(p, a, b):
+            try:
+                return not (refsub.contained(b, a, p, 0) if fr["get_subtypes"] else refsub.contained(a, b, p, 0))
+            except Exception:
+                return True
+        allmoves = [("%s-to-%s" % (argkind(a), argkind(b)), offending(p, a, b))
+                    for p, a, b in zip(e.t_constructor.type_parameters, e.type_args, r.type_args) if not (a == b)]
+        moves = sorted({m for m, bad in allmoves if bad}) or sorted({m for m, _ in allmoves})
         ps0 = list(e.t_constructor.type_parameters)
-        if not any(p.bound is not None and any(p.bound == q for q in ps0) for p in ps0):
+        if not any(p.bound is not None and p.bound.has_type_variables() for p in ps0):
             return "%s/related/samecon/%s" % ("sub" if fr["get_subtypes"] else "super", "+".join(moves) or "none")
     if kind(e) == "p":
         ps = list(e.t_constructor.type_parameters)
-        if any(p.bound is not None and any(p.bound == q for q in ps) for p in ps):
-            feats.append("param-bounded-param")
+        if any(p.bound is not None and p.bound.has_type_variables() for p in ps):
+            feats.append("bound-mentions-parameter")
     if feats:
         pass
     elif has(e, "w") or has(r, "w"):
         feats.append("wildcard")
-    if "param-bounded-param" not in feats and (has(e, "v") or has(r, "v")):
+    if "bound-mentions-parameter" not in feats and (has(e, "v") or has(r, "v")):
         feats.append("typevar")
     return "%s/%s/%s%s" % ("sub" if fr["get_subtypes"] else "super", via,
                            "samecon" if same else "%s-for-%s" % (kind(r), kind(e)),
